@@ -61,10 +61,13 @@ class NoteContainer(object):
             elif len(self.notes) == 0:
                 note = Note(note, 4, dynamics)
             else:
-                if Note(note, self.notes[-1].octave) < self.notes[-1]:
-                    note = Note(note, self.notes[-1].octave + 1, dynamics)
-                else:
-                    note = Note(note, self.notes[-1].octave, dynamics)
+                # Voice the name at or above the top note and less than an
+                # octave above it. Count in semitones, not in octave numbers:
+                # B# and Cb sound in the octave next to the one they are
+                # written in.
+                top = self.notes[-1]
+                below = int(top) - int(Note(note, top.octave))
+                note = Note(note, top.octave + (below + 11) // 12, dynamics)
         if not hasattr(note, "name"):
             raise UnexpectedObjectError(
                 "Object '%s' was not expected. " "Expecting a mingus.containers.Note object." % note
